@@ -44,8 +44,61 @@ def rule_ids(c, prog):
     c.sample({"rule": R, "doc_ids": {k: hex(v[0]) for k, v in sorted(doc.items())}})
 
 
+def rule_bits(c, prog):
+    """bit-field types: the document's worked examples against the flag constants in the code"""
+    import re
+    R = "C03.bits"
+    c.rule(R, "Faces / Axes are written as the raw flag byte; the worked examples of docs/binary.md (named sets and their hex bytes) must be what the flag constants of rbx_types produce for those sets")
+    text = spec._read("binary.md")
+    for ty, mod, flags in (("Faces", "rbx_types::faces", "FaceFlags"), ("Axes", "rbx_types::axes", "AxisFlags")):
+        m = re.search(r"### " + ty + r"\n(.*?)\n### ", text, re.S)
+        if not m:
+            raise core.AnchorMissing(f"docs/binary.md: section ### {ty} not found")
+        sec = m.group(1)
+        ex = re.search(r"encoded `" + ty + r"` with values (.*?) looks? like this: `([0-9A-Fa-f ]+)`", sec)
+        if not ex:
+            raise core.AnchorMissing(f"docs/binary.md: worked example of {ty} not found")
+        sets = [re.findall(r"[A-Z][a-z]*", grp) for grp in re.findall(r"`([^`]*)`", ex.group(1))]
+        want = [int(x, 16) for x in ex.group(2).split()]
+        # flag constants of the code: consts named like the flags with integer values
+        bits = {}
+        from sa import wire as _w, sym as _s
+        for path, f in prog.fns.items():
+            if path.startswith(mod + "::" + ty + "::") and path.count("::") == 3 and path.rsplit("::", 1)[-1].isupper() and f.body is not None:
+                try:
+                    t = _w.WireInterp(prog, prims=[], depth=4).eval(f.body, {})
+                except (_s.Unsupported, _s.Exit):
+                    continue
+                ints = []
+
+                def rec(x):
+                    if isinstance(x, tuple) and x:
+                        if x[0] == "c" and isinstance(x[1], int) and not isinstance(x[1], bool):
+                            ints.append(x[1])
+                        for y in x:
+                            rec(y)
+                rec(t)
+                if len(ints) == 1:
+                    bits[path.rsplit("::", 1)[-1]] = ints[0]
+        if len(bits) < 3:
+            raise core.AnchorMissing(f"{mod}: flag constants not found ({bits})")
+        got = []
+        for names in sets:
+            v = 0
+            for nm in names:
+                v |= bits.get(nm.upper(), 0)
+            got.append(v)
+        c.sample({"rule": R, "type": ty, "flag_bits": bits, "doc_example_sets": sets, "doc_bytes": want, "code_bytes": got})
+        inst = f"example:{ty}"
+        if got == want:
+            c.ok(R, inst)
+        else:
+            c.violation(R, f"{ty}|doc-example", f"docs/binary.md encodes the {ty} sets {sets} as {[hex(x) for x in want]}; with the flag constants of {mod} ({bits}) rbx_binary writes {[hex(x) for x in got]}: the document's bit order is the reverse of the code's, so an implementer following the document reads e.g. Front where rbx-dom wrote Right", "docs/binary.md", instance=inst)
+
+
 def run(c, prog):
     rule_ids(c, prog)
+    rule_bits(c, prog)
     from . import C03_frame
     C03_frame.run(c, prog)
     # the values clause (`an independent decoder recovers exactly the property values`): what each encoder arm writes is what the
